@@ -4,7 +4,7 @@ from common import *
 
 class Case:
     __slots__ = ("cid", "elt", "line", "term", "meta", "family", "nontrivial", "tol", "check_class", "exact_bits")
-    def __init__(self, elt, line, term, meta=None, family="", nontrivial=True, tol=1e-10, check_class=False, exact_bits=False):
+    def __init__(self, elt, line, term, meta=None, family="", nontrivial=True, tol=1e-10, check_class=True, exact_bits=False):
         self.cid = None
         self.elt = elt          # element type token of the executor
         self.line = line        # "<kind> <args...>" for the executor
